@@ -219,13 +219,14 @@ impl RuntimeData {
                 })?;
 
             let layout = CaoLangString::layout(payload.len());
-            let mut ptr = self.memory.alloc(layout).map_err(|_| {
+            let ptr = self.memory.alloc(layout).map_err(|_| {
                 // release the object header, it is not registered anywhere yet
                 self.memory.dealloc(obj_ptr, Layout::new::<CaoLangObject>());
                 ExecutionErrorPayload::OutOfMemory
             })?;
 
-            let result: *mut u8 = ptr.as_mut();
+            // no reference is formed: for an empty string the buffer has no bytes at all
+            let result: *mut u8 = ptr.as_ptr();
             std::ptr::copy(payload.as_ptr(), result, payload.len());
 
             let obj_ptr: NonNull<CaoLangObject> = obj_ptr.cast();
